@@ -92,6 +92,17 @@ Theorem C20_config_for_setup : forall (V : Type) (s : sig V) ignore over,
 Proof. exact (@config_for_setup). Qed.
 Print Assumptions C20_config_for_setup.
 
+(* an un-annotated parameter is typed from its default: a default of builtin type T gets annotation T (a bool default stays
+   bool although bool is a subclass of int), tuples element-wise - for EVERY default shape, over the regenerated head of
+   infer_type_annotation_from_default *)
+Theorem C20_inferred_annotation : forall d : dkind, infer (f_infer facts_gen) d = spec_ity d.
+Proof. exact inferred_is_builtin_type. Qed.
+Print Assumptions C20_inferred_annotation.
+Theorem C20_inferred_bool_stays_bool :
+  infer (f_infer facts_gen) DBool = IB TBool /\ infer (f_infer facts_gen) (DTuple [DBool; DInt]) = ITuple [IB TBool; IB TInt].
+Proof. exact (conj (inferred_is_builtin_type DBool) (inferred_is_builtin_type (DTuple [DBool; DInt]))). Qed.
+Print Assumptions C20_inferred_bool_stays_bool.
+
 (* ---- Partial.__call__ -----------------------------------------------------------------------------------------
    For EVERY field list, values and call-site arguments: the callable is invoked with the call-site positionals and
    with exactly the field values updated by the call-site kwargs (the call site wins). *)
